@@ -312,6 +312,10 @@ def gen_lattice(bound):
         for l1, k1, l2, k2 in itertools.product(range(3), repeat=4):
             yield {'subs': [{'id': 'a', 'lags': l1, 'leads': k1}, {'id': 'b', 'lags': l2, 'leads': k2}], 'n': 3, 't': 1,
                    'opts': {'max_iter': 1, 'failures': 'ignore'}}
+        # ... and over three submodels: the maximum may sit on the first, the middle or the last one
+        for l1, k1, l2, k2, l3, k3 in itertools.product(range(3), repeat=6):
+            yield {'subs': [{'id': 'a', 'lags': l1, 'leads': k1}, {'id': 'b', 'lags': l2, 'leads': k2},
+                            {'id': 'c', 'lags': l3, 'leads': k3}], 'n': 5, 't': 2, 'opts': {'max_iter': 1, 'failures': 'ignore'}}
         # offsets
         for offset in (1, -1, 2, -2, 5):
             for t in (0, 1, 2, -1):
@@ -380,7 +384,7 @@ def strat_single():
         'opts': st.fixed_dictionaries({
             'min_iter': st.integers(0, 3), 'max_iter': st.sampled_from([0, 1, 2, 3, 8, 30, 60, 100]),
             'tol': st.sampled_from([1e-6, 0.5, 2.0 ** -10, 1e-10, 1e-3]), 'failures': st.sampled_from(['raise', 'ignore']),
-        }),
+        }, optional={'offset': st.sampled_from([0, -1, 1, -1, 2])}),
     })
 
 
